@@ -1,4 +1,5 @@
 import SupervisorModel.Lemmas.Listener
+import SupervisorModel.Lemmas.Pool
 /-
   C10 — event-listener protocol safety.  Property theorems only; helper lemmas are in
   Lemmas/Listener.lean.  The definitions unfolded there (`Sv.Gen.Listener.*`) are regenerated
@@ -281,5 +282,17 @@ example : docRun defaultHandler .BUSY (some 3) [.result [82, 69, 83, 85, 76, 84,
 example : (Tok.result [82, 69, 83, 85, 76, 84, 32, 50] [79, 75]).Valid := by
   constructor <;> decide
 
+
+/-! ### isolation -/
+
+/-- **isolation.**  Whatever one listener does — any bytes on its stdout in any fragmentation, EOF, its stdin
+    becoming writable, a pipe fault, its death (`f` ranges over all listener-level operations, and over everything
+    else of type `S → S`) — no pool other than its own changes in any way, and inside its own pool no other
+    listener changes: the only things it can touch are its own state and its pool's buffer and poolserial counter. -/
+theorem isolation (pi li : Nat) (f : Listener.S → Listener.S) (w : Pool.W) :
+    (∀ j, j ≠ pi → (Pool.onListener pi li f w).pools[j]? = w.pools[j]?) ∧
+    (∀ (p p' : Pool.PoolSt) (k : Nat), w.pools[pi]? = some p → (Pool.onListener pi li f w).pools[pi]? = some p' →
+      k ≠ li → p'.procs[k]? = p.procs[k]?) :=
+  Pool.onListener_isolated pi li f w
 
 end Sv.Props.C10
